@@ -106,6 +106,8 @@ def gen_case(rng, tier):
             px = rng.choice((None, cur_px)) if cur_px is not None else rng.choice(pxs)
         st, sgl = rand_plane(rng, N, shape, cls, px, Fr(rng.choice((2, 4))) if cls == 'Pupil' else None, allow_single, need_shape=(route == 'pupil-prop'))
         single = single or sgl
+        if rng.random() < 0.3:
+            st['opd_dtype'] = 'float32'        # the same OPD map held in single precision (where every value is exactly representable)
         steps.append(st)
         if px is not None and cur_px is None:
             cur_px = px
